@@ -2,15 +2,18 @@ package main
 
 import (
 	"context"
+	"encoding/json"
 	"fmt"
 	"os"
 	"path/filepath"
+	"reflect"
 	"sort"
 	"strings"
 	"time"
 
 	"github.com/deckhouse/deckhouse/pkg/log"
 
+	hookconfig "github.com/flant/shell-operator/pkg/hook/config"
 	"github.com/flant/shell-operator/pkg/hook/task_metadata"
 	htypes "github.com/flant/shell-operator/pkg/hook/types"
 	schedulemanager "github.com/flant/shell-operator/pkg/schedule_manager"
@@ -28,6 +31,224 @@ var c11Valid = []string{"7 3 1 1 *", "7 3 29 2 *", "7 3 1 7 *", "0 8 3 1 1 *", "
 // Specs the cron library rejects.
 var c11Invalid = []string{"61 * * * *", "not a crontab", "* * *", ""}
 
+// ---- crontab spellings ---------------------------------------------------------------------------
+//
+// A crontab is a STRING: the manager keys its Entries map by it, the cron job sends it, the controller
+// compares it with the link's. The cron parser accepts many spellings of one schedule (runs of blanks and
+// tabs, leading/trailing blanks, 5 or 6 fields, month/day names in any case, leading zeros, one-element
+// ranges and lists, `?` for `*`, descriptors, a TZ= prefix). Every generated spelling is calibrated against
+// the real config check (config.ParseCrontab, i.e. what a hook configuration may contain): it is used only
+// if it is accepted AND parses to the schedule of its class. All schedules are rare dates (03:0x on
+// 1 January / 29 February / 1 July, or a year from now) so that a started cron does not fire by itself.
+
+// c11Class is one schedule: six fields (second minute hour day-of-month month day-of-week) and, for the
+// classes that have them, descriptor spellings.
+type c11Class struct {
+	fields      [6]string
+	descriptors []string
+}
+
+var c11Classes = []c11Class{
+	{fields: [6]string{"0", "7", "3", "1", "1", "*"}},
+	{fields: [6]string{"0", "7", "3", "29", "2", "*"}},
+	{fields: [6]string{"0", "7", "3", "1", "7", "*"}},
+	{fields: [6]string{"0", "8", "3", "1", "1", "*"}},
+	{fields: [6]string{"0", "0", "0", "1", "1", "*"}, descriptors: []string{"@yearly", "@annually"}},
+	{fields: [6]string{"30", "9", "3", "29", "2", "1"}},
+	{descriptors: []string{"@every 8760h", "@every 8760h0m0s", "@every 525600m", "@every 8760h0s"}},
+}
+
+var c11MonthNames = []string{"", "jan", "feb", "mar", "apr", "may", "jun", "jul", "aug", "sep", "oct", "nov", "dec"}
+var c11DowNames = []string{"sun", "mon", "tue", "wed", "thu", "fri", "sat"}
+
+func (k c11Class) canonical() string {
+	if k.fields[0] == "" {
+		return k.descriptors[0]
+	}
+	if k.fields[0] == "0" {
+		return strings.Join(k.fields[1:], " ")
+	}
+	return strings.Join(k.fields[:], " ")
+}
+
+func c11Case(rng *Rng, s string) string {
+	switch rng.Intn(3) {
+	case 0:
+		return strings.ToUpper(s)
+	case 1:
+		return strings.ToUpper(s[:1]) + s[1:]
+	}
+	return s
+}
+
+// c11SameSchedule: both are accepted by the hook-config check and parse to the same schedule.
+func c11SameSchedule(a, b string) bool {
+	sa, ea := hookconfig.ParseCrontab(a)
+	sb, eb := hookconfig.ParseCrontab(b)
+	return ea == nil && eb == nil && reflect.DeepEqual(sa, sb)
+}
+
+// c11CameDue: a started cron fires by itself when a crontab comes due; the schedules are rare dates, but a
+// check may run at 03:07 on 1 January. Such a case cannot be decided (tasks appear on their own).
+func c11CameDue(c *Case, crontabs []string, start time.Time) {
+	for _, spec := range crontabs {
+		sch, err := hookconfig.ParseCrontab(spec)
+		if err != nil || sch == nil {
+			continue
+		}
+		if next := sch.Next(start.Add(-2 * time.Second)); !next.IsZero() && !next.After(time.Now().Add(2*time.Second)) {
+			c.Inconcl = fmt.Sprintf("crontab %q came due while the case ran", spec)
+		}
+	}
+}
+
+// c11Spell writes the class in an unusual but legal way; the kinds used are returned for the input
+// distribution. The result is calibrated by the caller.
+func c11Spell(rng *Rng, k c11Class) (string, []string) {
+	var kinds []string
+	if k.fields[0] == "" || (len(k.descriptors) > 0 && rng.Chance(40)) {
+		return PickOne(rng, k.descriptors), []string{"descriptor"}
+	}
+	f := k.fields
+	for i := range f {
+		n := 0
+		if _, err := fmt.Sscanf(f[i], "%d", &n); err != nil {
+			if f[i] == "*" && rng.Chance(25) {
+				f[i] = "?"
+				kinds = append(kinds, "question-mark")
+			}
+			continue
+		}
+		switch rng.Intn(12) {
+		case 0:
+			f[i] = "0" + f[i]
+			kinds = append(kinds, "leading-zero")
+		case 1:
+			f[i] = f[i] + "-" + f[i]
+			kinds = append(kinds, "range")
+		case 2:
+			f[i] = f[i] + "," + f[i]
+			kinds = append(kinds, "list")
+		case 3, 4, 5:
+			if i == 4 {
+				f[i] = c11Case(rng, c11MonthNames[n])
+				kinds = append(kinds, "name")
+			} else if i == 5 {
+				f[i] = c11Case(rng, c11DowNames[n])
+				kinds = append(kinds, "name")
+			}
+		}
+	}
+	fs := f[:]
+	if f[0] == "0" && rng.Chance(60) {
+		fs = f[1:]
+	} else {
+		kinds = append(kinds, "6-field")
+	}
+	var b strings.Builder
+	if rng.Chance(8) {
+		b.WriteString("TZ=Local ")
+		kinds = append(kinds, "tz")
+	}
+	blanks := []string{" ", "  ", "\t", " \t", "   ", "\t\t"}
+	if rng.Chance(25) {
+		b.WriteString(PickOne(rng, blanks))
+		kinds = append(kinds, "leading-blank")
+	}
+	odd := rng.Chance(65)
+	wide := false
+	for i, x := range fs {
+		if i > 0 {
+			sep := " "
+			if odd && rng.Chance(50) {
+				sep = PickOne(rng, blanks)
+			}
+			if sep != " " {
+				wide = true
+			}
+			b.WriteString(sep)
+		}
+		b.WriteString(x)
+	}
+	if wide {
+		kinds = append(kinds, "wide-separator")
+	}
+	if rng.Chance(25) {
+		b.WriteString(PickOne(rng, []string{" ", "\t", "\n", "  "}))
+		kinds = append(kinds, "trailing-blank")
+	}
+	return b.String(), kinds
+}
+
+// c11PickCrontabs chooses the n crontab strings of a case (pairwise distinct strings). About a third of
+// the cases keep the ordinary single-space spellings; in the others every crontab is respelled and, half
+// of the time, two of them are different spellings of ONE schedule (they fire at the same instant, the
+// manager must keep them apart, each binding must be triggered by its own spelling only).
+func c11PickCrontabs(c *Case, rng *Rng, n int) []string {
+	perm := make([]int, len(c11Classes))
+	for i := range perm {
+		perm[i] = i
+	}
+	rng.Shuffle(len(perm), func(i, j int) { perm[i], perm[j] = perm[j], perm[i] })
+	var cts []string
+	if rng.Chance(35) {
+		for i := 0; i < n; i++ {
+			cts = append(cts, c11Classes[perm[i]].canonical())
+		}
+		c.Note("crontabs:canonical")
+		return cts
+	}
+	cls := make([]int, n)
+	for i := range cls {
+		cls[i] = perm[i]
+	}
+	if n >= 2 && rng.Chance(50) {
+		cls[rng.Intn(n-1)+1] = cls[0]
+		c.Note("crontabs:two-spellings-of-one-schedule")
+	}
+	for i := 0; i < n; i++ {
+		k := c11Classes[cls[i]]
+		got := ""
+		for try := 0; try < 20 && got == ""; try++ {
+			s, kinds := c11Spell(rng, k)
+			if try >= 10 && try%2 == 0 {
+				s, kinds = k.canonical(), nil
+			}
+			dup := false
+			for _, x := range cts {
+				dup = dup || x == s
+			}
+			if dup {
+				continue
+			}
+			if !c11SameSchedule(s, k.canonical()) {
+				c.Note("spelling-not-accepted-by-the-parser")
+				continue
+			}
+			got = s
+			for _, kd := range kinds {
+				c.Note("spelling:" + kd)
+			}
+		}
+		if got == "" {
+			// no further distinct spelling of this class: take another class
+			for _, j := range perm {
+				s := c11Classes[j].canonical()
+				dup := false
+				for _, x := range cts {
+					dup = dup || x == s
+				}
+				if !dup {
+					got = s
+					break
+				}
+			}
+		}
+		cts = append(cts, got)
+	}
+	return cts
+}
+
 // ------------------------------------------------------------------ part A: the manager alone
 
 type c11Sm struct {
@@ -35,6 +256,8 @@ type c11Sm struct {
 	cancel   context.CancelFunc
 	crontabs []string // index+1 = model number
 	c        *Case
+	start    time.Time
+	started  bool
 }
 
 func newC11Sm(c *Case, crontabs []string, started bool) *c11Sm {
@@ -43,7 +266,7 @@ func newC11Sm(c *Case, crontabs []string, started bool) *c11Sm {
 	if started {
 		sm.Start()
 	}
-	m := &c11Sm{sm: sm, cancel: cancel, crontabs: crontabs, c: c}
+	m := &c11Sm{sm: sm, cancel: cancel, crontabs: crontabs, c: c, start: time.Now(), started: started}
 	decl := []string{}
 	for i, s := range crontabs {
 		v := 0
@@ -100,15 +323,31 @@ func c11FireAll(sm schedulemanager.ScheduleManager, num func(string) int) (strin
 	return joinStrs(live), joinInts(fired)
 }
 
+// c11Owner maps the cron entry ids recorded in the Entries map to the crontab string of their row.
+func c11Owner(sm schedulemanager.ScheduleManager) map[int]string {
+	owner := map[int]string{}
+	for _, e := range schedulemanager.VerifC11Dump(sm) {
+		if e.EntryID != 0 {
+			owner[e.EntryID] = e.Crontab
+		}
+	}
+	return owner
+}
+
 // c11Live lists the live cron registrations as `id@crontab` by matching each registration's parsed
-// schedule with the declared crontabs (no job is run), plus the sorted crontab list.
+// schedule with the declared crontabs (no job is run), plus the sorted crontab list. When several
+// declared crontabs are spellings of one schedule the registration is attributed to the spelling of the
+// Entries row that holds its id (the first such spelling when no row does).
 func c11Live(sm schedulemanager.ScheduleManager, crontabs []string) (string, string) {
 	all := schedulemanager.VerifC11CronEntries(sm)
 	sort.Ints(all)
+	owner := c11Owner(sm)
 	of := map[int]int{}
 	for i, spec := range crontabs {
 		for _, id := range schedulemanager.VerifC11EntriesFor(sm, spec) {
-			of[id] = i + 1
+			if of[id] == 0 || owner[id] == spec {
+				of[id] = i + 1
+			}
 		}
 	}
 	var live []string
@@ -180,7 +419,12 @@ func (m *c11Sm) op(kind string, cn, id int) {
 	}
 }
 
-func (m *c11Sm) close() { m.cancel() }
+func (m *c11Sm) close() {
+	if m.started {
+		c11CameDue(m.c, m.crontabs, m.start)
+	}
+	m.cancel()
+}
 
 // ------------------------------------------------------------------ part B: hooks, controller, operator callback
 
@@ -194,10 +438,24 @@ type c11Hook struct {
 	file   string
 	kubes  []c11Kube
 	scheds []c11Sched
+	v0     bool // legacy configuration format: {"schedule":[{"name","crontab","allowFailure"}]}, no configVersion
 }
 
 func (h c11Hook) yaml() string {
 	var b strings.Builder
+	if h.v0 {
+		type sch struct {
+			Name         string `json:"name,omitempty"`
+			Crontab      string `json:"crontab"`
+			AllowFailure bool   `json:"allowFailure,omitempty"`
+		}
+		var l []sch
+		for _, s := range h.scheds {
+			l = append(l, sch{s.name, s.crontab, s.allowFailure})
+		}
+		out, _ := json.Marshal(map[string]interface{}{"schedule": l})
+		return string(out) + "\n"
+	}
 	b.WriteString("configVersion: v1\n")
 	if len(h.kubes) > 0 {
 		b.WriteString("kubernetes:\n")
@@ -247,6 +505,7 @@ type c11Sys struct {
 	queues   []string       // all queues (sorted by model number order of declaration)
 	enTasks  map[string]task.Task
 	started  bool
+	start    time.Time
 }
 
 func (s *c11Sys) cnum(crontab string) int {
@@ -322,7 +581,7 @@ func newC11Sys(r *Run, c *Case, hooks []c11Hook, crontabs []string) (*c11Sys, st
 	}
 	op.VerifC11CreateHookQueues()
 	s := &c11Sys{c: c, op: op, cancel: cancel, in: NewInterner(), crontabs: crontabs, hookIdx: map[string]int{},
-		idNum: map[string]int{}, enTasks: map[string]task.Task{}}
+		idNum: map[string]int{}, enTasks: map[string]task.Task{}, start: time.Now()}
 	decl := []string{}
 	for i := range crontabs {
 		decl = append(decl, fmt.Sprintf("%d:1", i+1))
@@ -391,6 +650,8 @@ func (s *c11Sys) cb(cn int) int {
 	}
 	sort.Strings(out)
 	s.c.Op(fmt.Sprintf("cb %d", cn), joinStrs(out))
+	// one firing of the crontab = one event: the same clause as for an injected tick
+	s.c.Oracle(fmt.Sprintf("event c=%d tasks=%s", cn, joinStrs(out)))
 	return len(out)
 }
 
@@ -422,57 +683,106 @@ func (s *c11Sys) drain() map[string][]string {
 	return res
 }
 
-// tick injects one wall-clock tick of the crontab: the job of every live cron registration whose
-// schedule is that crontab's is run (each sends to ScheduleCh, capacity 1), the started
+// spellings lists the declared crontabs (model numbers) that parse to the schedule of crontab cn,
+// cn included: the crontabs a wall clock fires at the same instants.
+func (s *c11Sys) spellings(cn int) []int {
+	var res []int
+	for i, x := range s.crontabs {
+		if i+1 == cn || c11SameSchedule(x, s.crontabs[cn-1]) {
+			res = append(res, i+1)
+		}
+	}
+	return res
+}
+
+// regsOf lists the live cron registrations a firing of the crontab STRING cn runs: those whose schedule
+// is the crontab's, except the ones the manager's Entries map records for another declared spelling of
+// that schedule (a registration no row records is run: it fires at that instant whatever it sends).
+func (s *c11Sys) regsOf(cn int) []int {
+	sm := s.op.ScheduleManager
+	owner := c11Owner(sm)
+	var res []int
+	for _, id := range schedulemanager.VerifC11EntriesFor(sm, s.crontabs[cn-1]) {
+		if o, ok := owner[id]; ok && o != s.crontabs[cn-1] && s.cnum(o) != 0 {
+			continue
+		}
+		res = append(res, id)
+	}
+	return res
+}
+
+// inject runs the jobs of the given cron registrations (each sends to ScheduleCh, capacity 1); the started
 // ManagerEventsHandler turns the events into tasks and appends them to the queues. Barrier without
 // timing: two dummy events (a crontab no hook has) are sent afterwards; the handler handles one event
 // completely before it receives the next, so when the second dummy has been accepted by the channel
 // the first has been received, i.e. every event of the tick has been turned into queued tasks.
-func (s *c11Sys) tick(cn int) int {
+// Returns the rendered queues (op answer) and all tasks, or "" and an error answer.
+func (s *c11Sys) inject(ids []int) (string, []string, string) {
 	if !s.started {
 		s.op.ManagerEventsHandler.Start()
 		s.started = true
 	}
 	sm := s.op.ScheduleManager
-	line := fmt.Sprintf("tick %d", cn)
-	for _, id := range schedulemanager.VerifC11EntriesFor(sm, s.crontabs[cn-1]) {
+	for _, id := range ids {
 		if !schedulemanager.VerifC11Fire(sm, id) {
-			s.c.Op(line, "entry-gone")
-			return 0
+			return "", nil, "entry-gone"
 		}
 	}
 	for i := 0; i < 2; i++ {
 		select {
 		case sm.Ch() <- "verif-barrier":
 		case <-time.After(30 * time.Second):
-			s.c.Op(line, "events-handler-stalled")
-			return 0
+			return "", nil, "events-handler-stalled"
 		}
 	}
 	got := s.drain()
 	var parts []string
 	var all []string
-	type qrow struct {
-		n int
-		s string
-	}
-	var rows []qrow
 	for _, qn := range s.queues {
 		ts := got[qn]
 		sort.Strings(ts)
 		all = append(all, ts...)
-		rows = append(rows, qrow{s.in.Id("queue/" + qn), fmt.Sprintf("q%d=%s", s.in.Id("queue/"+qn), joinStrs(ts))})
+		parts = append(parts, fmt.Sprintf("q%d=%s", s.in.Id("queue/"+qn), joinStrs(ts)))
 	}
-	for _, r := range rows {
-		parts = append(parts, r.s)
-	}
-	s.c.Op(line, strings.Join(parts, " "))
 	sort.Strings(all)
+	return strings.Join(parts, " "), all, ""
+}
+
+// tick injects one firing of the crontab string cn (see regsOf).
+func (s *c11Sys) tick(cn int) int {
+	line := fmt.Sprintf("tick %d", cn)
+	obs, all, err := s.inject(s.regsOf(cn))
+	if err != "" {
+		s.c.Op(line, err)
+		return 0
+	}
+	s.c.Op(line, obs)
 	s.c.Oracle(fmt.Sprintf("tick c=%d tasks=%s", cn, joinStrs(all)))
 	return len(all)
 }
 
+// wtick injects one wall-clock instant at which the schedule of crontab cn is due: EVERY live
+// registration with that schedule runs, whatever spelling registered it, one right after the other (the
+// events queue up in ScheduleCh behind each other, as they do when cron fires them at one instant).
+func (s *c11Sys) wtick(cn int) int {
+	cs := s.spellings(cn)
+	ss := make([]string, len(cs))
+	for i, x := range cs {
+		ss[i] = fmt.Sprint(x)
+	}
+	line := "wtick " + strings.Join(ss, "+")
+	obs, all, err := s.inject(schedulemanager.VerifC11EntriesFor(s.op.ScheduleManager, s.crontabs[cn-1]))
+	if err != "" {
+		s.c.Op(line, err)
+		return 0
+	}
+	s.c.Op(line, obs)
+	s.c.Oracle(fmt.Sprintf("wtick cs=%s tasks=%s", strings.Join(ss, "+"), joinStrs(all)))
+	return len(all)
+}
+
 func (s *c11Sys) close() {
+	c11CameDue(s.c, s.crontabs, s.start)
 	s.op.ScheduleManager.Stop()
 	s.cancel()
 }
@@ -483,8 +793,11 @@ func c11GenHooks(rng *Rng, crontabs []string) []c11Hook {
 	groups := []string{"", "", "g1", "g2"}
 	var hooks []c11Hook
 	for i := 0; i < nh; i++ {
-		h := c11Hook{file: fmt.Sprintf("hook%d.sh", i+1)}
+		h := c11Hook{file: fmt.Sprintf("hook%d.sh", i+1), v0: rng.Chance(20)}
 		nk := rng.Intn(3)
+		if h.v0 {
+			nk = 0
+		}
 		for k := 0; k < nk; k++ {
 			h.kubes = append(h.kubes, c11Kube{name: fmt.Sprintf("kube%d", k+1), group: PickOne(rng, groups)})
 		}
@@ -502,6 +815,9 @@ func c11GenHooks(rng *Rng, crontabs []string) []c11Hook {
 					s.includes = append(s.includes, kb.name)
 				}
 			}
+			if h.v0 {
+				s.queue, s.group, s.includes = "", "", nil
+			}
 			h.scheds = append(h.scheds, s)
 		}
 		hooks = append(hooks, h)
@@ -510,7 +826,7 @@ func c11GenHooks(rng *Rng, crontabs []string) []c11Hook {
 }
 
 func runC11(r *Run) {
-	r.Rule = "part A: random histories (<= 30 ops) of scheduleManager.Add/Remove over 3 crontabs x 4 ids on a real manager (started or not; in 35% of the cases one crontab is a spec the cron library rejects), repeats and unknown pairs included; after every op every live cron registration's job is run and the crontab it sends is read back. part B: 1-4 generated hooks with 0-3 schedule bindings each over 3 crontabs, sharing crontabs, queues and groups, loaded by the real hook manager (--config); histories (<= 30 ops) of EnableScheduleBindings (the task from the main queue through taskHandler) / DisableScheduleBindings / direct schedule callback / injected ticks through the started ManagerEventsHandler into the real queues. thorough adds every Add/Remove history of length <= 5 over 2 crontabs x 2 ids and every enable/disable history of length <= 4 over two hooks that share a crontab and a queue (a tick of each crontab after every op). A case is non-trivial when (A) it contains a repeated add, a removal of an unknown pair and a removal that empties a crontab, or (B) two bindings share a crontab and some tick produced >= 2 tasks; distinct = distinct op-line sequences."
+	r.Rule = "crontabs: 3 pairwise distinct strings per case over 7 rare-date schedules; in 35% of the cases the ordinary single-space spellings, otherwise every crontab is respelled (runs of blanks/tabs between fields, leading/trailing blanks incl. newline, 5- or 6-field form, month/weekday names in any case, leading zeros, one-element ranges and lists, ? for *, descriptors @yearly/@annually/@every, TZ=Local prefix) and in half of those two crontabs are different spellings of ONE schedule; every spelling is calibrated against the real config check (accepted, same parsed schedule). part A: random histories (<= 30 ops) of scheduleManager.Add/Remove over 3 crontabs x 4 ids on a real manager (started or not; in 35% of the cases one crontab is a spec the cron library rejects), repeats and unknown pairs included; after every op every live cron registration's job is run and the crontab STRING it sends is read back. part B: 1-4 generated hooks with 0-3 schedule bindings each over the 3 crontabs, sharing crontabs, queues and groups (20% of the hooks in the legacy v0 configuration format), loaded by the real hook manager (--config); histories (<= 30 ops) of EnableScheduleBindings (the task from the main queue through taskHandler) / DisableScheduleBindings / direct schedule callback (one event) / injected firings of one crontab string / injected wall-clock instants (every registration of the schedule, whatever spelling registered it, fired back to back) through the started ManagerEventsHandler into the real queues. thorough adds every Add/Remove history of length <= 5 over 2 crontabs x 2 ids and every enable/disable history of length <= 4 over two hooks that share a crontab and a queue (a tick of each crontab after every op). A case is non-trivial when (A) it contains a repeated add, a removal of an unknown pair and a removal that empties a crontab, or (B) two bindings share a crontab and some tick produced >= 2 tasks; distinct = distinct op-line sequences."
 	// corpus: the asymmetries of Add/Remove read off the code
 	r.One(0, func(c *Case, _ *Rng) {
 		c.Desc = "corpus: same id added twice then removed once; unknown pair; invalid crontab between valid ones"
@@ -537,14 +853,53 @@ func runC11(r *Run) {
 			m.op(o.k, o.c, o.i)
 		}
 	})
+	r.One(2, func(c *Case, _ *Rng) {
+		c.Desc = "corpus: three spellings of one schedule (wide blanks; tab, month name, ?, trailing newline) are three crontabs: each has its own registration and sends its own string"
+		c.Nontrivial = true
+		m := newC11Sm(c, []string{"7 3 1 1 *", "7  3 1 1 *", "\t0 07 3 1 JAN ?\n"}, true)
+		defer m.close()
+		for _, o := range []struct {
+			k    string
+			c, i int
+		}{{"add", 2, 1}, {"add", 1, 1}, {"add", 2, 2}, {"add", 3, 1}, {"remove", 1, 1}, {"remove", 2, 1}, {"add", 1, 2}, {"remove", 2, 2},
+			{"remove", 2, 2}, {"add", 2, 1}, {"remove", 3, 1}, {"remove", 1, 2}, {"remove", 2, 1}} {
+			m.op(o.k, o.c, o.i)
+		}
+	})
+	r.One(3, func(c *Case, _ *Rng) {
+		cts := []string{"7 3 1 1 *", "7  3 1 1 *", " 0 7\t3 01 jan * "}
+		c.Desc = fmt.Sprintf("corpus: hooks whose crontabs are unusual spellings (one of them shares its schedule with a plainly spelled one) crontabs=%q", cts)
+		c.Nontrivial = true
+		hooks := []c11Hook{
+			{file: "hook1.sh", scheds: []c11Sched{{name: "odd", crontab: cts[1], queue: "q1"}, {name: "six", crontab: cts[2], allowFailure: true}}},
+			{file: "hook2.sh", scheds: []c11Sched{{name: "plain", crontab: cts[0], queue: "q1", group: "g1"}}},
+		}
+		s, err := newC11Sys(r, c, hooks, cts)
+		if err != "" {
+			c.Op("setup", err)
+			return
+		}
+		defer s.close()
+		all := func() {
+			for cn := 1; cn <= 3; cn++ {
+				s.tick(cn)
+				s.cb(cn)
+			}
+			s.wtick(1)
+		}
+		s.enable(1)
+		all()
+		s.enable(2)
+		all()
+		s.disable(2)
+		all()
+		s.enable(2)
+		s.disable(1)
+		all()
+	})
 	nA := r.N(1500, 12000)
 	r.Cases(10, nA, 0, func(c *Case, rng *Rng) {
-		cts := []string{}
-		perm := []int{0, 1, 2, 3, 4}
-		rng.Shuffle(len(perm), func(i, j int) { perm[i], perm[j] = perm[j], perm[i] })
-		for i := 0; i < 3; i++ {
-			cts = append(cts, c11Valid[perm[i]])
-		}
+		cts := c11PickCrontabs(c, rng, 3)
 		if rng.Chance(35) {
 			cts[rng.Intn(3)] = PickOne(rng, c11Invalid)
 			c.Note("A:with-invalid-crontab")
@@ -583,13 +938,11 @@ func runC11(r *Run) {
 		}
 		c.Nontrivial = rep && unk && emptied
 		c.Note(fmt.Sprintf("A:len<=%d", (n/10+1)*10))
-		c.Desc = fmt.Sprintf("A started=%v", started)
+		c.Desc = fmt.Sprintf("A started=%v crontabs=%q", started, cts)
 	})
 	nB := r.N(120, 900)
 	r.Cases(100000, nB, 0, func(c *Case, rng *Rng) {
-		perm := []int{0, 1, 2, 3, 4}
-		rng.Shuffle(len(perm), func(i, j int) { perm[i], perm[j] = perm[j], perm[i] })
-		cts := []string{c11Valid[perm[0]], c11Valid[perm[1]], c11Valid[perm[2]]}
+		cts := c11PickCrontabs(c, rng, 3)
 		hooks := c11GenHooks(rng, cts)
 		s, err := newC11Sys(r, c, hooks, cts)
 		if err != "" {
@@ -624,8 +977,12 @@ func runC11(r *Run) {
 				s.enable(h)
 			case k < 50:
 				s.disable(h)
-			case k < 65:
+			case k < 63:
 				s.cb(pickC())
+			case k < 75:
+				if t := s.wtick(pickC()); t > maxTasks {
+					maxTasks = t
+				}
 			default:
 				if t := s.tick(pickC()); t > maxTasks {
 					maxTasks = t
@@ -647,10 +1004,15 @@ func runC11(r *Run) {
 		}
 		c.Nontrivial = shared && maxTasks >= 2
 		c.Note(fmt.Sprintf("B:hooks-with-schedules=%d", nh))
+		for _, h := range hooks {
+			if h.v0 {
+				c.Note("B:v0-config-hook")
+			}
+		}
 		if maxTasks >= 2 {
 			c.Note("B:tick-with>=2-tasks")
 		}
-		c.Desc = fmt.Sprintf("B hooks=%d", len(hooks))
+		c.Desc = fmt.Sprintf("B hooks=%d crontabs=%q", len(hooks), cts)
 	})
 	if r.Thorough() {
 		// every Add/Remove history of length <= 5 over 2 crontabs x 2 ids
@@ -696,13 +1058,20 @@ func runC11(r *Run) {
 			}
 		}
 		genS(nil, 4)
-		r.Extra["exhaustive_scope_B"] = fmt.Sprintf("all %d enable/disable histories of length 1..4 over 2 hooks (3 schedule bindings, shared crontab and queue), a tick of both crontabs after every op", len(sysHist))
-		r.Cases(2000000, len(sysHist), 0, func(c *Case, _ *Rng) {
+		r.Extra["exhaustive_scope_B"] = fmt.Sprintf("all %d enable/disable histories of length 1..4 over 2 hooks (3 schedule bindings, shared crontab and queue), a tick of both crontabs after every op; the same histories once more with the second hook's crontab written as another spelling of the shared schedule (a firing of each of the three strings and one wall-clock instant after every op)", len(sysHist))
+		r.Cases(2000000, 2*len(sysHist), 0, func(c *Case, _ *Rng) {
 			cts := []string{c11Valid[0], c11Valid[1], c11Valid[2]}
+			// second family: hook2's binding spells the schedule of crontab 1 differently (crontab 3)
+			respelled := c.Idx-2000000 >= len(sysHist)
+			c2 := cts[0]
+			if respelled {
+				cts[2] = "\t0 7  3 1 JAN ?"
+				c2 = cts[2]
+			}
 			hooks := []c11Hook{
 				{file: "hook1.sh", kubes: []c11Kube{{name: "k1", group: "g1"}}, scheds: []c11Sched{
 					{name: "s1", crontab: cts[0], queue: "q1", group: "g1", includes: []string{"k1"}}, {crontab: cts[1]}}},
-				{file: "hook2.sh", scheds: []c11Sched{{name: "s1", crontab: cts[0], queue: "q1", allowFailure: true}}},
+				{file: "hook2.sh", scheds: []c11Sched{{name: "s1", crontab: c2, queue: "q1", allowFailure: true}}},
 			}
 			s, err := newC11Sys(r, c, hooks, cts)
 			if err != "" {
@@ -710,7 +1079,8 @@ func runC11(r *Run) {
 				return
 			}
 			defer s.close()
-			for _, o := range sysHist[c.Idx-2000000] {
+			hs := sysHist[(c.Idx-2000000)%len(sysHist)]
+			for _, o := range hs {
 				h := int(o[1] - '0')
 				if o[0] == 'e' {
 					s.enable(h)
@@ -719,13 +1089,17 @@ func runC11(r *Run) {
 				}
 				s.tick(1)
 				s.tick(2)
+				if respelled {
+					s.tick(3)
+					s.wtick(1)
+				}
 				if c.Inconcl != "" {
 					return
 				}
 			}
-			c.Nontrivial = len(sysHist[c.Idx-2000000]) >= 2
+			c.Nontrivial = len(hs) >= 2
 			c.Note("B:exhaustive")
-			c.Desc = "B exhaustive " + strings.Join(sysHist[c.Idx-2000000], ",")
+			c.Desc = fmt.Sprintf("B exhaustive respelled=%v %s", respelled, strings.Join(hs, ","))
 		})
 		r.Cases(1000000, len(hist), 0, func(c *Case, _ *Rng) {
 			hs := hist[c.Idx-1000000]
